@@ -557,13 +557,9 @@ func main() {
 		for s := range sigs {
 			res.add(&res.viol, s, w)
 		}
-		// drift: the as-written model's prediction
+		// drift: the implementation-shaped model's prediction (RowDelete.tla with Keep = "is_not_true", the code as it is now)
 		if !sameState(after, implAfter) || conf.DeletedCount != c.ImplDeleted || dry.DeletedCount != c.ImplDry {
-			kind := "real-outcome-differs-from-RowDelete(Keep=not_p)"
-			if sameState(after, expAfter) && len(sigs) == 0 {
-				kind = "real-outcome-matches-repaired-variant-RowDelete(Keep=is_not_true)"
-			}
-			res.add(&res.drift, kind, w)
+			res.add(&res.drift, "real-outcome-differs-from-RowDelete(Keep=is_not_true)", w)
 		}
 		if len(res.Samples) < 4 && c.ExpectedCount > 0 && ci%7 == 0 {
 			res.Samples = append(res.Samples, w)
